@@ -20,11 +20,11 @@ def hill_climb(ctx, impl, model):
     for i in range(6 if ctx.tier == "quick" else 60):
         bases.append(("hrand%d" % i, G.base_random(rng, 1000 + i)))
     pool = []
-    per_base = 60 if ctx.tier == "quick" else 120
+    per_base = 50 if ctx.tier == "quick" else 120
     for bname, b in bases:
         ms = [x for x in G.mutants(b, rng, per=2) if not x[0].startswith(("build/", "default_values/"))]
         for mname, m in rng.sample(ms, min(per_base, len(ms))):
-            if rng.random() < 0.4:
+            if rng.random() < (0.2 if ctx.tier == "quick" else 0.4):
                 # a second mutation on top of the first
                 ms2 = [x for x in G.mutants(m, rng, per=1) if not x[0].startswith(("build/", "default_values/"))]
                 if ms2:
